@@ -25,9 +25,9 @@ pub fn run(tier: Tier, seed: u64) -> i32 {
     for j in 0..tier.pick(8usize, 213usize) {
         keys.push(rotating_key((j * 37) as u8));
     }
-    let n_deep = tier.pick(2usize, 8usize);
-    let depth_deep: usize = tier.pick((1 << 17) + 300, 1 << 20);
-    let depth_shallow: usize = tier.pick(70_000, 200_000);
+    let n_deep = tier.pick(4usize, 8usize);
+    let depth_deep: usize = tier.pick(1 << 21, 1 << 26);
+    let depth_shallow: usize = tier.pick(70_000, 1 << 21);
     let states = AtomicU64::new(0);
     let trans = AtomicU64::new(0);
     let spec_mut = [AtomicU64::new(0), AtomicU64::new(0), AtomicU64::new(0)];
